@@ -129,6 +129,19 @@ func addGarbleToHash(inputHash []byte) [sha256.Size]byte {
 func appendFlags(w io.Writer, forBuildHash bool) {
 	if flagLiterals {
 		io.WriteString(w, " -literals")
+		if forBuildHash {
+			// With -literals, the variables targeted by -ldflags=-X are compiled
+			// differently; see computeLinkerVariableStrings. cmd/go only relinks
+			// when ldflags change, so the names need to be part of the build hash
+			// to not reuse packages compiled for a different set of variables.
+			// The values are only used by the linker, so they can be left out.
+			ldflags, _ := cmdgoQuotedSplit(flagValue(sharedCache.ForwardBuildFlags, "-ldflags"))
+			for val := range flagValues(ldflags, "-X") {
+				name, _, _ := strings.Cut(val, "=")
+				io.WriteString(w, " -X=")
+				io.WriteString(w, name)
+			}
+		}
 	}
 	if flagTiny {
 		io.WriteString(w, " -tiny")
